@@ -11,6 +11,11 @@ offset); `HandleOk h d` says the in-memory handle agrees with the disk.
 
 The theorems are about the *repaired* repair loop (`openWith true`, the code after the `fix:`
 commit); `open_unfixed_loses_items` keeps the witness for the loop as it was.
+
+Second half of the file: the layer above, `Freezer` (freezer.rs; model `Model/FreezerTop.lean`, run
+by `ckbmodel C09 top` against the real `ckb_freezer::Freezer`): `freezer_holds_chain_prefix`,
+`freeze_only_appends_contiguously`, `freeze_after_crash_continues`, `truncate_then_freeze`; and the
+statement that the read-handle LRU cannot change an answer (`lru_cannot_change_answers`).
 -/
 namespace CkbVerif.C09
 open CkbVerif.Freezer
